@@ -12,9 +12,13 @@ from props.lp_common import enc_mat, enc_num, enc_point, enc_vec, finite
 AREAS = ["Lp"]
 LEVEL = "proof"
 ASSUMPTIONS = [
-    "the best-first loop of solve_milp itself is not mirrored step by step; its answers are judged against the "
-    "certified exhaustive oracle (every integer assignment of a certified box, continuous remainder by the "
-    "certifying simplex) and the abstract branch-and-bound theorems (bnb_invariant/bnb_optimal)",
+    "solve_milp(heuristics=False) is mirrored step by step (Lp.Bnb.solveMilp: heap order on (bound, counter), "
+    "_solve_node bound folding/substitution, _most_fractional, _detect_binary, warm start, solution_limit, "
+    "max_nodes) over exact rationals; R_trace = full Result equality, excluded only when the mirror's own path "
+    "contains a tie / a comparison within 1e-9 of a threshold AND the results differ; CPython's iteration order "
+    "of a set of small non-negative ints is taken to be ascending",
+    "all answers (every configuration) are judged against the certified exhaustive oracle (every integer "
+    "assignment of a certified box, continuous remainder by the certifying simplex)",
     "rounding/LNS heuristics and RNG are outside Lean: their incumbents are judged by the verified isFeasible",
     "IEEE rounding of the node LPs is not modelled; gap: eps (1e-6) in isFeasible, gap_tol in the optimum test",
 ]
@@ -197,12 +201,68 @@ def impl(case):
             kw["warm_start"] = x0
         try:
             r = _res(solve_milp(list(c), [list(r_) for r_ in A], list(b), list(ints), minimize=case["minimize"], **kw))
+            r["warm_used"] = kw.get("warm_start")
             if k == 0 and r["x"] is not None:
                 base_x = r["x"]
             outs.append(("ok", r))
         except Exception as e:  # noqa: BLE001
             outs.append(("err", f"{type(e).__name__}: {e}"))
     return outs
+
+
+DEFAULT_MAX_NODES = 100_000
+DEFAULT_MAX_ITER = 10_000
+
+
+def bnb_requests(case, out):
+    """one mirror request per configuration run with heuristics=False (R_trace: full Result equality)"""
+    reqs = []
+    if out[0] != "ok":
+        return reqs
+    for k, (cfg, o) in enumerate(zip(case["configs"], out[1])):
+        if cfg.get("heuristics", True) is not False or o[0] != "ok":
+            continue
+        warm = o[1].get("warm_used")
+        reqs.append((k, ["bnb", enc_vec(case["c"]), enc_mat(case["A"]), enc_vec(case["b"]),
+                         sorted(case["integers"]), bool(case["minimize"]), rat(EPS), DEFAULT_MAX_ITER,
+                         int(cfg.get("max_nodes", DEFAULT_MAX_NODES)), rat(GAP_TOL),
+                         int(cfg.get("solution_limit", 1)), (enc_point(warm) if warm is not None else None)]))
+    return reqs
+
+
+def close(a, b, tol=1e-6):
+    return abs(core.frac(a) - core.unrat(b)) <= core.frac(tol) * (1 + abs(core.unrat(b)))
+
+
+def judge_trace(ctx, case, cfg, o, rp):
+    """R_trace: the step-by-step mirror `solveMilp` returns the same Result as solve_milp(heuristics=False)."""
+    fn = "solve_milp"
+    r = o[1]
+    st, x, obj, _nodes, sols, near, nodes_ok = rp
+    # per-input discharge of the refinement theorem's hypothesis (every explored node LP certificate-checked)
+    ctx.count("refinement_nodes_certified" if nodes_ok else "refinement_nodes_uncertified")
+    same = st == r["status"]
+    if same:
+        if x is None or r["x"] is None:
+            same = (x is None) == (r["x"] is None)
+        else:
+            same = len(x) == len(r["x"]) and all(finite(a) and close(a, b) for a, b in zip(r["x"], x))
+    if same and obj is not None and finite(r["obj"]):
+        same = close(r["obj"], obj)
+    if same:
+        same = len(sols) == len(r["sols"]) and all(
+            len(a) == len(b) and all(close(u, v) for u, v in zip(a, b)) for a, b in zip(r["sols"], sols))
+    if same:
+        ctx.count("r_trace_agree")
+        if _nodes == r["nodes"]:
+            ctx.count("r_trace_nodes_agree")
+    elif near:
+        ctx.count("r_trace_excluded_tie")   # a tie / comparison within 1e-9 of a threshold on the mirror's path
+    else:
+        ctx.tdiv(fn, {"case": {k: case[k] for k in ("c", "A", "b", "integers", "minimize")}, "config": cfg,
+                      "impl": {k: r[k] for k in ("status", "x", "obj", "sols")},
+                      "mirror": {"status": st, "x": (x and [float(core.unrat(v)) for v in x]),
+                                 "obj": (obj and float(core.unrat(obj))), "n_sols": len(sols)}})
 
 
 def to_request(case, out):
@@ -326,12 +386,20 @@ def judge(ctx, case, out, reply):
 
 def run_cases(ctx, cases):
     outs = run_pool(impl, cases, timeout=120.0)
-    reqs = [to_request(c, o) for c, o in zip(cases, outs)]
+    reqs, owner = [], []
+    for ci, (c, o) in enumerate(zip(cases, outs)):
+        reqs.append(to_request(c, o)); owner.append((ci, None))
+        for k, rq in bnb_requests(c, o):
+            reqs.append(rq); owner.append((ci, k))
     replies = Driver("Lp").run(reqs, chunks=16)
-    for c, o, rp in zip(cases, outs, replies):
+    for (ci, k), rp in zip(owner, replies):
+        c, o = cases[ci], outs[ci]
         if rp and rp[0] == "error":
             raise core.Infra(f"model rejected request: {rp} for {c}")
-        judge(ctx, c, o, rp)
+        if k is None:
+            judge(ctx, c, o, rp)
+        else:
+            judge_trace(ctx, c, c["configs"][k], o[1][k], rp)
 
 
 def run(ctx, budget):
